@@ -20,7 +20,7 @@ HARNESSES = {
  "k3_secp256k1_tr_scalar": ("same for frost-secp256k1-tr", "Secp256K1ScalarField::deserialize/serialize (tr)", "all 2^256 strings"),
  "k3_p256_scalar": ("same for frost-p256", "P256ScalarField::deserialize/serialize, p256::Scalar::from_repr/to_bytes", "all 2^256 strings"),
  "k3_ed448_scalar": ("Ed448 scalar encoding: accepted => re-encodes to itself (57 bytes)", "Ed448ScalarField::deserialize/serialize, ed448-goldilocks from_canonical_bytes/to_bytes_rfc_8032", "all 2^456 strings"),
- "k4_p256_tag": ("frost-p256 element decoding rejects every leading byte other than 0x02/0x03 (in front of the generator's x)", "P256Group::deserialize, p256 Sec1Point::from_bytes / AffinePoint::from_sec1_point", "254 tag bytes, concrete x"),
+ "k4_p256_tag": ("frost-p256 element decoding rejects every leading byte other than 0x02/0x03/0x05 (in front of the generator's x); 0x05 (SEC1 compact) enters point decompression and is outside Kani's reach", "P256Group::deserialize, p256 Sec1Point::from_bytes / AffinePoint::from_sec1_point", "254 tag bytes, concrete x"),
  "k4_secp256k1_tag": ("same for frost-secp256k1", "Secp256K1Group::deserialize", "254 tag bytes, concrete x"),
  "k4_secp256k1_tr_tag": ("same for frost-secp256k1-tr", "Secp256K1Group::deserialize (tr)", "254 tag bytes, concrete x"),
  "k4_tr_signature_length": ("Taproot signature decoding rejects every length 0..=80 except 64, never panics", "Secp256K1Sha256TR::deserialize_signature", "lengths 0..=80 of a zero buffer"),
@@ -43,7 +43,7 @@ PLAN = {
  # property -> (quick harnesses, extra thorough harnesses)
  "C02": (["k2_id_secp256k1", "k2_id_secp256k1_tr", "k2_id_p256", "k2_id_toy16", "k2_cmp_secp256k1", "k2_cmp_p256", "k2_cmp_toy16"], []),
  "C06": (["k6_validate_num_of_signers"], []),
- "C12": (["k3_secp256k1_scalar", "k3_secp256k1_tr_scalar", "k3_p256_scalar", "k3_ed448_scalar", "k2_zero_secp256k1", "k2_zero_p256", "k4_tr_signature_length",
+ "C12": (["k3_secp256k1_scalar", "k3_secp256k1_tr_scalar", "k3_p256_scalar", "k3_ed448_scalar", "k2_zero_secp256k1", "k2_zero_p256", "k4_tr_signature_length", "k4_p256_tag", "k4_secp256k1_tag", "k4_secp256k1_tr_tag",
           "k5_keypackage_decode", "k5_signature_decode", "k5_primitives_decode", "k5_keypackage_roundtrip"], ["k5_dkg_round2_secret_roundtrip"]),
  "C13": ([], ["k5_keypackage_roundtrip", "k5_dkg_round2_secret_roundtrip"]),
  "C14": (["k5_keypackage_decode", "k5_signature_decode", "k5_primitives_decode", "k4_tr_signature_length", "k6_validate_num_of_signers"], []),
@@ -118,13 +118,13 @@ def run(prop, tier, seed, out_path, only=None):
     env = dict(os.environ, CARGO_NET_OFFLINE="true", RUSTFLAGS="--cfg miri")
     cap = 3000 if tier == "thorough" else 1500
     def kani(harnesses, jobs, playback, tag):
-        cmd = ["timeout", str(cap), "cargo", "kani", "--target-dir", os.path.join(BUILD, "kani"), "--output-format", "terse"]
+        cmd = ["timeout", str(cap), "cargo", "kani", "--exact", "--target-dir", os.path.join(BUILD, "kani"), "--output-format", "terse"]
         if playback:
             cmd += ["-Z", "concrete-playback", "--concrete-playback=print"]
         elif jobs > 1:
             cmd += ["-j", str(jobs)]
         for h in harnesses:
-            cmd += ["--harness", h]
+            cmd += ["--harness", "proofs::" + h]
         p = subprocess.run(cmd, cwd=KANI, env=env, stdout=subprocess.PIPE, stderr=subprocess.STDOUT, text=True)
         open(os.path.join(BUILD, f"kani-{prop}{tag}.log"), "w").write(p.stdout)
         return p.stdout
@@ -139,9 +139,9 @@ def run(prop, tier, seed, out_path, only=None):
         for m in re.finditer(r"fn kani_concrete_playback_(\w+?)_\d+\(\) \{(.*?)kani::concrete_playback_run", out2, re.S):
             name, body = m.group(1), m.group(2)
             vals = []
-            for v in re.finditer(r"vec!\[([^\]]*)\]", body):
+            for v in re.finditer(r"vec!\[([0-9][0-9, ]*)\]", body):
                 vals += [int(x) for x in v.group(1).split(",") if x.strip()]
-            playback[name] = bytes(vals).hex()
+            playback.setdefault(name, []).append(bytes(vals).hex())
     known = load_known(prop)
     viol = 0
     inconc = 0
@@ -180,16 +180,22 @@ def run(prop, tier, seed, out_path, only=None):
             inconc += 1
             lines.append(f"INCONCLUSIVE property={prop}: harness {h}: {'; '.join(failed) or 'solver failure / out of memory'}")
             continue
-        hexvals = playback.get(h)
-        if hexvals is None:
+        cands = playback.get(h)
+        if not cands:
             inconc += 1
             lines.append(f"INCONCLUSIVE property={prop}: harness {h} failed ({'; '.join(failed)}) but no counterexample values were printed")
             continue
-        rc, msg = replay(binpath, h, hexvals)
-        replays += 1
-        if rc != 1:
+        # Kani prints one concrete test per failed check and per satisfied cover: replay them all
+        hexvals, rc, msg = None, 0, ""
+        for cand in cands:
+            rc, msg = replay(binpath, h, cand)
+            replays += 1
+            if rc == 1:
+                hexvals = cand
+                break
+        if hexvals is None:
             inconc += 1
-            lines.append(f"INCONCLUSIVE property={prop}: harness {h}: counterexample {hexvals[:40]}… did not reproduce natively ({msg})")
+            lines.append(f"INCONCLUSIVE property={prop}: harness {h}: none of the {len(cands)} printed counterexamples reproduced natively ({msg})")
             continue
         label = f"{h}: {msg}"
         if any(st == "open" and mt in label for st, mt in known):
